@@ -22,7 +22,7 @@ RULE = (
 )
 STATE_DEF = "recorded steps (case, step label); transitions = solver updates"
 ASSUMPTIONS = [
-    "terminals are left unpinned (terminal_psi=None) and unbiased, as the statement says",
+    "terminals are left unpinned (terminal_psi=None) and unbiased, as the statement says; a sub-family holds them at the bulk value terminal_psi = 1, which is the uniform state too",
     "the oracle computes the explicit-Euler number S = dt * lambda_max(-L) * sqrt(1+gamma^2) / u from the raw mesh; "
     "departures with S > 2 are the recorded known finding (rounding amplified by an unstable explicit step), departures with S <= 2 are violations",
 ]
@@ -66,6 +66,13 @@ def cases(tier, seed):
     # thermalisation first (two stages on one solver: the recorded stage must start and stay in the uniform state)
     for (m, dens, sm), ad in itertools.product(meshes[:3] if quick else meshes, (False, True)):
         out.append(dict(dev=m, dens=dens, smooth=sm, gamma=10.0, u=5.79, adaptive=ad, dt_max=1e-2, screening=False, thermal=True))
+    # the unbiased terminals held at the bulk value (terminal_psi = 1 is the uniform state itself): still nothing may ever change
+    for (m, dens, sm), ad, dtm in itertools.product([x for x in meshes if x[0] in ("G1", "G2", "G3", "G4", "G6")][: 3 if quick else 8], (False, True), (1e-2, 1e-1)):
+        out.append(dict(dev=m, dens=dens, smooth=sm, gamma=10.0, u=5.79, adaptive=ad, dt_max=dtm, screening=False, terminal_psi=1.0))
+        if ad:
+            # the library's default initial step: any spurious change of |psi|^2 per step then caps the step far below dt_max
+            out.append(dict(dev=m, dens=dens, smooth=sm, gamma=10.0, u=5.79, adaptive=ad, dt_max=dtm, screening=False, terminal_psi=1.0, dt_init=1e-6))
+            out.append(dict(dev=m, dens=dens, smooth=sm, gamma=10.0, u=5.79, adaptive=ad, dt_max=dtm, screening=False, dt_init=1e-6))
     scr_meshes = meshes[:2] if quick else meshes
     scr_gu = GU[:2] if quick else GU
     for (m, dens, sm), (g, u) in itertools.product(scr_meshes, scr_gu):
@@ -102,8 +109,8 @@ def run_case(case):
     ad = case["adaptive"]
     window = 3
     opts = tdgl.SolverOptions(
-        solve_time=5.0, dt_init=(1e-3 if ad else dtm), dt_max=dtm, adaptive=ad, adaptive_window=window, save_every=20,
-        output_file="out.h5", terminal_psi=None, include_screening=case["screening"], progress_interval=10**9, skip_time=(1.0 if case.get("thermal") else 0.0),
+        solve_time=5.0, dt_init=((case.get("dt_init") or 1e-3) if ad else dtm), dt_max=dtm, adaptive=ad, adaptive_window=window, save_every=20,
+        output_file="out.h5", terminal_psi=case.get("terminal_psi"), include_screening=case["screening"], progress_interval=10**9, skip_time=(1.0 if case.get("thermal") else 0.0),
     )
     rm = RawMesh.from_mesh(dev.mesh)
     lam = float(np.abs(np.linalg.eigvals(rm.laplacian_dense())).max())
